@@ -18,6 +18,16 @@ package c08
 // object is asked for its sender under both chain parameters, for its hash and for
 // CheckBasic, and the object itself (with whatever it memoised) is asked wherever the
 // model asks; all answers are compared with the model state.
+//
+// The admission window (window.go): the model splits mempool.AddTx into its two
+// linearisation points (AdmitPut: cache.Put, unchecked; AdmitVerdict: flag set or entry
+// removed) with BlockVerify enabled in between. That part of the graph is replayed on the
+// REAL mempool and the REAL LinkApplication (harness/appx): AddTx of the transaction is
+// held at a gate inside the mempool's App (before / after the real basic check) while
+// LinkApplication.CheckBlock verifies a freshly decoded block with the wire copy of the
+// same transaction; accept/reject of the block and of the admission are compared with
+// the model for Transaction, TokenTransaction, account->confidential deposits,
+// confidential spends (ring signature, rings of 1 and 3) and MultiSignAccountTx.
 
 import (
 	"crypto/ecdsa"
@@ -109,10 +119,14 @@ func otherParams() []*big.Int {
 
 // subgraph keeps the edges a kind can execute (edge indexes are renumbered).
 func subgraph(g *mbt.Graph, keep func(a *mAct) bool) *mbt.Graph {
+	return subgraphFrom(g, func(_ int, a *mAct) bool { return keep(a) })
+}
+
+func subgraphFrom(g *mbt.Graph, keep func(from int, a *mAct) bool) *mbt.Graph {
 	sg := &mbt.Graph{States: g.States, Out: make([][]int, len(g.States))}
 	for _, e := range g.Edges {
 		var a mAct
-		if json.Unmarshal(e.Act, &a) != nil || !keep(&a) {
+		if json.Unmarshal(e.Act, &a) != nil || !keep(e.From, &a) {
 			continue
 		}
 		sg.Edges = append(sg.Edges, e)
@@ -121,13 +135,44 @@ func subgraph(g *mbt.Graph, keep func(a *mAct) bool) *mbt.Graph {
 	return sg
 }
 
+// objectLevel is the subgraph one kind replays on transaction OBJECTS. On that level the mempool cache
+// matters to BlockVerify only, so two families of edges are left to the replay on the real stack
+// (window.go), where they are a different thing: block verification against an EMPTY cache (on the
+// object level the same call as Query) and the content steps / queries taken while an admission is in
+// flight (on the object level the same calls as from the state without the pending entry; every state
+// with a checked entry stays reachable through AdmitPut . AdmitVerdict . changes).
+func objectLevel(g *mbt.Graph, kind string) *mbt.Graph {
+	noPool := make([]bool, len(g.States))
+	inFlight := make([]bool, len(g.States))
+	for i, raw := range g.States {
+		var st mState
+		if json.Unmarshal(raw, &st) != nil {
+			continue
+		}
+		noPool[i] = st.Pool.Sig.Key == "none"
+		inFlight[i] = !noPool[i] && !st.Pool.Chk
+	}
+	keep := keepFor(kind)
+	return subgraphFrom(g, func(from int, a *mAct) bool {
+		if a.Op == "blockverify" && noPool[from] {
+			return false
+		}
+		if inFlight[from] && a.Op != "admitverdict" && a.Op != "blockverify" {
+			return false
+		}
+		return keep(a)
+	})
+}
+
 func keepFor(kind string) func(a *mAct) bool {
 	switch kind {
 	case "M": // validator signatures: no chain parameter, no recovery, no StoreFrom
 		return func(a *mAct) bool {
 			switch a.Op {
-			case "mutate", "query", "redecode":
+			case "mutate", "query", "redecode", "admitput", "admitverdict":
 				return true
+			case "blockverify": // a cache hit means "VerifySign skipped"
+				return !a.Hit || a.M == "trust"
 			case "sign":
 				return a.P == "p0"
 			case "mutsig":
@@ -135,10 +180,18 @@ func keepFor(kind string) func(a *mAct) bool {
 			}
 			return false
 		}
-	case "C": // no StoreFrom
-		return func(a *mAct) bool { return a.Op != "admit" && a.Op != "blockverify" && a.Op != "libvalidate" }
+	case "C": // no StoreFrom; block verification always runs CheckBasic
+		return func(a *mAct) bool {
+			return a.Op != "admitput" && a.Op != "admitverdict" && a.Op != "blockverify" && a.Op != "libvalidate"
+		}
 	}
-	return func(a *mAct) bool { return a.Op != "libvalidate" }
+	// Transaction, TokenTransaction, account input: a cache hit means "sender taken from the pooled object"
+	return func(a *mAct) bool {
+		if a.Op == "blockverify" && a.Hit && a.M != "rederive" {
+			return false
+		}
+		return a.Op != "libvalidate"
+	}
 }
 
 func hasMutate(g *mbt.Graph, seq []int) bool {
@@ -226,6 +279,11 @@ func runAcctJob(j *acctJob, g *mbt.Graph, nFields int, tours, walks [][]int) {
 
 func runC08(c *core.Ctx) {
 	if c.Child != "" {
+		var wj winJob
+		if json.Unmarshal([]byte(c.Child), &wj) == nil && wj.Window {
+			windowChild(c, &wj)
+			return
+		}
 		confChild(c)
 		return
 	}
@@ -235,12 +293,13 @@ func runC08(c *core.Ctx) {
 	}
 	o := c.Out()
 	o.Level = "model_checking"
-	o.Rule = "behaviour = path through the TLC-exported graph of TxAuth (tour covering every edge + seeded walks) replayed on one (transaction kind, field map, second chain parameter), or a path of ConfAuth replayed on real deposits/spends; non-trivial = it contains a content-changing step (field or signature changed, re-signed, admitted to the pool / spend built or changed); distinct = distinct (kind, instantiation, edge sequence)"
+	o.Rule = "behaviour = path through the TLC-exported graph of TxAuth (tour covering every edge + seeded walks) replayed on one (transaction kind, field map, second chain parameter), or a path through its node-executable part (content changes, AdmitPut, AdmitVerdict, BlockVerify) replayed on the real mempool + LinkApplication with one gate position, or a path of ConfAuth replayed on real deposits/spends; non-trivial = it contains a content-changing step (field or signature changed, re-signed, admitted to the pool / spend built or changed); distinct = distinct (kind, instantiation, edge sequence)"
 	o.Assumptions = []string{
 		"ECDSA / ed25519 / edwards25519 hardness: a signature is modelled as remembering what it was made over",
 		"transaction objects are built by the constructors, by decoding or by the kind's own Sign/WithSignature; exported struct fields are not assigned after the first From()",
 		"the confidential half runs over the Go/libsodium stand-in for libxcrypto (ring size 1 only; MLSAG and sub-addresses are not available)",
-		"CheckBasic is called with a stub TxCensor (no contracts, fixed multi-signer table and validator set, in-memory output store); block-level processing (verifyTxsOnProcess) is replayed as its lookup/StoreFrom pattern, not through LinkApplication",
+		"object level: CheckBasic is called with a stub TxCensor (no contracts, fixed multi-signer table and validator set, in-memory output store) and the mempool-cache pattern of verifyTxsOnProcess is emulated; the real mempool cache and the real block verification (LinkApplication.CheckBlock) are driven by the admission-window replay, where AddTx is held at two points of its window (before the basic check starts, after it has run) - points inside CheckBasic are not reachable without a hook",
+		"admission window: ContractUpgradeTx is not replayed on the real stack (block verification always runs its CheckBasic, which includes VerifySign; it needs an installed multi-signer account)",
 	}
 	o.Trusted = []string{"TLC", "libsecp256k1 (as the reference for what a valid signature is)", "xmodel stand-in", "the harness's list of signed fields per kind (the signing specification)"}
 
@@ -273,10 +332,17 @@ func runC08(c *core.Ctx) {
 	c.SetExtra("txauth_states", len(g.States))
 	c.SetExtra("txauth_edges", len(g.Edges))
 	c.SetExtra("txauth_edges_by_action", g.ActionKinds("op"))
+	// ---- the admission window on the real mempool + application (child processes), concurrently ----
+	var wwg sync.WaitGroup
+	wwg.Add(1)
+	go func() { defer wwg.Done(); runWindow(c, res.Lines, nFields) }()
+	defer wwg.Wait()
+
 	leads := map[string]string{}
 	var lmu sync.Mutex
 	var lwg sync.WaitGroup
-	for _, ac := range [][2]string{{"TxAuthAsCodedLegacy.cfg", "ExactFieldsAndChain"}, {"TxAuthAsCodedResign.cfg", "SenderIsSigner"}} {
+	for _, ac := range [][2]string{{"TxAuthAsCodedLegacy.cfg", "ExactFieldsAndChain"}, {"TxAuthAsCodedResign.cfg", "SenderIsSigner"},
+		{"TxAuthWhatIfServeUnchecked.cfg", "BlockAcceptsOnlyVerified"}} {
 		lwg.Add(1)
 		go func(cfg, want string) {
 			defer lwg.Done()
@@ -287,7 +353,7 @@ func runC08(c *core.Ctx) {
 				return
 			}
 			leads[cfg] = r.Violated
-			if r.Violated != want {
+			if !strings.Contains(r.Violated, want) { // (an action property is reported as a whole line)
 				c.Infra("TxAuth %s: expected TLC to report %s violated for the modelled deviation, got %q (%s)", cfg, want, r.Violated, r.Describe())
 			}
 		}(ac[0], ac[1])
@@ -306,7 +372,7 @@ func runC08(c *core.Ctx) {
 	tourSizes := map[string]int{}
 	for _, kn := range kinds {
 		trng := rand.New(rand.NewSource(c.Seed))
-		sg := subgraph(g, keepFor(kn))
+		sg := objectLevel(g, kn)
 		plans[kn] = &plan{g: sg, tours: sg.Tour(0, trng), walks: sg.Walks(c.Pick(100, 1500), 9, trng)}
 		tourSizes[kn] = len(plans[kn].tours)
 	}
@@ -392,6 +458,7 @@ func runC08(c *core.Ctx) {
 
 	cwg.Wait()
 	lwg.Wait()
+	wwg.Wait()
 	c.SetExtra("as_coded_models_violate", leads)
 	c.SetExtra("bounds", map[string]interface{}{"config": cfgName, "abstract_fields": nFields, "kinds": kinds, "second_chain_parameters": fmtBigs(otherParams())})
 	keys := []string{}
@@ -523,6 +590,9 @@ func replayRecord(c *core.Ctx) {
 		Key    string `json:"key"`
 		Tier   string `json:"tier"`
 		Record struct {
+			Window        bool           `json:"window"`
+			Family        string         `json:"family"`
+			GatePosition  string         `json:"gate_position"`
 			Kind          string         `json:"kind"`
 			Behaviour     []string       `json:"behaviour"`
 			FieldValues   map[string]int `json:"field_values"`
@@ -536,7 +606,7 @@ func replayRecord(c *core.Ctx) {
 		c.Infra("replay: %v", err)
 		return
 	}
-	if rf.Record.Kind == "" { // confidential half or library level: the whole half is run again
+	if rf.Record.Kind == "" && !rf.Record.Window { // confidential half or library level: the whole half is run again
 		if strings.HasPrefix(rf.Key, "validate-signature-values") || strings.HasPrefix(rf.Key, "ecrecover") {
 			res := c.TLC(tlc.Options{SpecDir: c.SpecDir("TxAuth"), Module: "TxAuth", Config: "TxAuth.cfg", Workers: 1, Timeout: c.MinutesT(4, 20)})
 			if res != nil {
@@ -555,6 +625,10 @@ func replayRecord(c *core.Ctx) {
 	}
 	res := c.TLC(tlc.Options{SpecDir: c.SpecDir("TxAuth"), Module: "TxAuth", Config: cfgName, Workers: 1, Timeout: c.MinutesT(4, 20)})
 	if res == nil {
+		return
+	}
+	if rf.Record.Window {
+		replayWindow(c, res.Lines, rf.Record.Family, rf.Record.GatePosition, rf.Record.Instantiation.Fields, rf.Record.Behaviour)
 		return
 	}
 	g, err := mbt.Load(res.Lines)
